@@ -133,10 +133,12 @@ def signature(stderr):
         msg = re.sub(r"0x[0-9a-f]+|-?\d+(\.\d+)?(e[-+]?\d+)?", "N", m2.group(1))
         kind = "UBSan:" + " ".join(msg.split()[:4])
     frames = []
-    for m in re.finditer(r"#\d+ 0x[0-9a-f]+ in (\S+).*?(/repo\S*|" + re.escape(build.REPO) + r"\S*)", stderr):
+    for m in re.finditer(r"#\d+ 0x[0-9a-f]+ in (.+?) ((?:/repo|" + re.escape(build.REPO) + r")/\S*)", stderr):
         fn = m.group(1)
-        loc = re.sub(r":\d+(:\d+)?$", "", m.group(2)).replace(build.REPO, "/repo")
-        fr = fn.split("(")[0] + "@" + os.path.basename(loc)
+        fn = re.sub(r"^(void|bool|int|double|auto|unsigned long|std::\S+) ", "", fn)
+        fn = re.split(r"[(<]", fn)[0]
+        loc = re.sub(r":\d+(:\d+)?$", "", m.group(2))
+        fr = fn + "@" + os.path.basename(loc)
         if fr not in frames:
             frames.append(fr)
         if len(frames) >= 2:
@@ -310,6 +312,9 @@ class C20(Check):
             if fails != 3:
                 labels["flaky-regress"] = labels.get("flaky-regress", 0) + 1
                 continue
+            if "out-of-memory" in sig or "allocation-size-too-big" in sig:
+                labels["oom-artifacts"] = labels.get("oom-artifacts", 0) + 1
+                continue        # resource exhaustion on huge declared sizes: counted, not a violation (see ASSUMPTIONS)
             if sig in knownsigs:
                 seen_known.add(sig)
                 continue
